@@ -52,7 +52,10 @@ class Fragment:
         while True:
             if isinstance(obj, Fragment):
                 if hasattr(obj, "origins"):
-                    obj.origins = tuple(origins) + (obj.origins or ())
+                    # A fragment object kept by the design is returned again on every elaboration:
+                    # list each elaboratable once, not once per elaboration.
+                    obj.origins = tuple(origins) + tuple(
+                        old for old in obj.origins or () if not any(old is new for new in origins))
                 return obj
             elif isinstance(obj, Elaboratable):
                 code = obj.elaborate.__code__
